@@ -20,7 +20,6 @@ import (
 
 	"github.com/honeytrap/honeytrap/director"
 	"github.com/honeytrap/honeytrap/event"
-	"github.com/honeytrap/honeytrap/listener"
 	"github.com/honeytrap/honeytrap/pushers"
 )
 
@@ -53,47 +52,42 @@ func (s *copyService) SetChannel(c pushers.Channel) {
 
 func (s *copyService) Handle(ctx context.Context, conn net.Conn) error {
 	defer conn.Close()
-	switch conn.(type) {
-	case *listener.DummyUDPConn:
-		defer s.c.Send(event.New(
-			EventOptions,
-			event.Category("copy"),
-			event.Type("tcp"),
-			event.SourceAddr(conn.RemoteAddr()),
-			event.DestinationAddr(conn.LocalAddr()),
-		))
 
-		conn2, err := s.d.Dial(conn)
-		if err != nil {
-			return err
-		}
-
-		defer conn2.Close()
-
-		go io.Copy(conn2, conn)
-		_, err = io.Copy(conn, conn2)
-
-		return err
-	case *net.TCPConn:
-		defer s.c.Send(event.New(
-			EventOptions,
-			event.Category("copy"),
-			event.Type("udp"),
-			event.SourceAddr(conn.RemoteAddr()),
-			event.DestinationAddr(conn.LocalAddr()),
-		))
-
-		conn2, err := s.d.Dial(conn)
-		if err != nil {
-			return err
-		}
-
-		defer conn2.Close()
-
-		go io.Copy(conn2, conn)
-		_, err = io.Copy(conn, conn2)
-		return err
-	default:
+	// the server always hands over a wrapped connection (deadlines, peeked bytes): its concrete
+	// type says nothing, the network of its address does
+	proto := conn.RemoteAddr().Network()
+	if proto != "tcp" && proto != "udp" {
 		return nil
 	}
+
+	conn2, err := s.d.Dial(conn)
+	if err != nil {
+		return err
+	}
+
+	defer conn2.Close()
+
+	// record the relayed connection now: the relay below ends only when both sides are done
+	s.c.Send(event.New(
+		EventOptions,
+		event.Category("copy"),
+		event.Type(proto),
+		event.SourceAddr(conn.RemoteAddr()),
+		event.DestinationAddr(conn.LocalAddr()),
+	))
+
+	go func() {
+		io.Copy(conn2, conn)
+
+		// the client is done sending: tell the backend, so that the relay can end
+		if tc, ok := conn2.(*net.TCPConn); ok {
+			tc.CloseWrite()
+		} else {
+			conn2.Close()
+		}
+	}()
+
+	_, err = io.Copy(conn, conn2)
+
+	return err
 }
